@@ -61,7 +61,7 @@ pub fn exec(op: &str, a: &[&str]) -> Option<String> {
             let lock_time: u32 = a[3].parse().unwrap();
             let inputs: Vec<TxIn> = split_list(a[4], ',').iter().map(|s| {
                 let f: Vec<&str> = s.split(':').collect();
-                TxIn { prev_output: OutPoint { hash: parse_hash(f[0]), index: f[1].parse().unwrap() }, unlock_script: Script(unhexd(f[2])), sequence: 0xffff_ffff }
+                TxIn { prev_output: OutPoint { hash: parse_hash(f[0]), index: f[1].parse().unwrap() }, unlock_script: Script(unhexd(f[2])), sequence: f.get(3).map(|q| q.parse().unwrap()).unwrap_or(0xffff_ffff) }
             }).collect();
             let outputs: Vec<TxOut> = split_list(a[5], ',').iter().map(|s| {
                 let f: Vec<&str> = s.split(':').collect();
@@ -128,7 +128,8 @@ fn boundary_amount(rng: &mut Rng) -> i64 {
 struct Case { forkid: bool, genesis: bool, lock_time: u64, ins: Vec<(String, u32, String)>, outs: Vec<(i64, String)>, utxos: Vec<(String, u32, i64, String)>, pregen: Vec<usize> }
 
 fn fmt_case(prof: &str, c: &Case) -> String {
-    let ins: Vec<String> = c.ins.iter().map(|(h, i, u)| format!("{}:{}:{}", h, i, u)).collect();
+    // an unlock text `<hex>@<n>` gives the input the sequence number n (default 0xffffffff)
+    let ins: Vec<String> = c.ins.iter().map(|(h, i, u)| match u.split_once('@') { Some((u, q)) => format!("{}:{}:{}:{}", h, i, u, q), None => format!("{}:{}:{}", h, i, u) }).collect();
     let outs: Vec<String> = c.outs.iter().map(|(s, l)| format!("{}:{}", s, l)).collect();
     let ut: Vec<String> = c.utxos.iter().map(|(h, i, s, l)| format!("{}:{}:{}:{}", h, i, s, l)).collect();
     format!("c04.tx {} {} {} {} {} {} {} {}", prof, c.forkid as u8, c.genesis as u8, c.lock_time,
@@ -264,6 +265,26 @@ pub fn gen(tier: &str, rng: &mut Rng, out: &mut Vec<String>) {
                 if k % 3 == 0 { c.ins.push(("0b".to_string(), 1, "51".to_string())); c.utxos.push(("0b".to_string(), 1, 3, "51".to_string())); }
                 out.push(fmt_case(prof, &c));
             } }
+        }
+        // the rule set is chosen PER INPUT: two or three inputs, each with its own script pair (mostly pairs on which the Genesis and
+        // the pre-genesis rules disagree: OP_RETURN, CLTV/CSV as NOPs) and its own pre-genesis mark, in every order of marks
+        // (timelock opcodes are NOPs under the Genesis rules and pop-and-check under the pre-genesis rules: `OP_1 | OP_0 OP_CLTV` is
+        // false under the former and true under the latter when the check passes, which needs a non-final sequence number)
+        let sens: Vec<(String, String)> = [("51", "6a"), ("51", "516a"), ("00", "516a"), ("51", "00b1"), ("51", "00b2"), ("51", "51b1"), ("00b1", "51"), ("516a", "51"), ("51", "51"), ("-", "51"),
+            ("51", "57b1"), ("51", "58b1"), ("51", "0400008000b2"), ("51", "55b2"), ("5100", "b1"), ("5100", "b2"), ("00", "51b2"), ("00", "00b251")]
+            .iter().map(|(a, b)| (a.to_string(), b.to_string())).collect();
+        let n_multi = if thorough { 6000 } else { 700 };
+        for k in 0..n_multi {
+            let n_in = 2 + (k % 2);
+            let mut c = Case { forkid: k % 3 == 0, genesis: k % 8 != 7, lock_time: if k % 5 == 0 { 7 } else { 0 }, ins: vec![], outs: vec![(1, "-".to_string())], utxos: vec![], pregen: vec![] };
+            for j in 0..n_in {
+                let (u, l) = if rng.chance(3, 4) { rng.pick(&sens).clone() } else { rng.pick(&pairs).clone() };
+                let u = match rng.below(5) { 0 => u, 1 => format!("{}@0", u), 2 => format!("{}@5", u), 3 => format!("{}@4194309", u), _ => format!("{}@{}", u, *rng.pick(&[7u32, 0x8000_0000, 0xffff_fffe, 65535])) };
+                c.ins.push((format!("{:02x}", 0x20 + j), j as u32, u)); c.utxos.push((format!("{:02x}", 0x20 + j), j as u32, 10, l));
+            }
+            let mask = if k < 64 { k % 8 } else { rng.below(8) as usize };
+            c.pregen = (0..n_in).filter(|j| mask >> j & 1 == 1).collect();
+            out.push(fmt_case(prof, &c));
         }
     }
     // enough individually legal amounts to carry an i64 sum past its range: i64::MAX / MAX_SATOSHIS (+0, +1, +2) outputs of
